@@ -16,6 +16,7 @@ PROPS["C12"] = dict(
         dict(name="generations", run="^TestC12Generations$", checks=(10, 80), shards=(1, 4), timeout=(300, 1500), shrinktime="20s"),
         dict(name="neighbours", run="^TestC12Neighbours$", shards=1, timeout=(300, 1800)),
         dict(name="rapid", run="^TestC12Rapid$", checks=(40, 1500), shards=(6, 16), timeout=(300, 1800), shrinktime="20s"),
+        dict(name="rapid_oldtimers", run="^TestC12Rapid$", checks=(10, 600), shards=(1, 4), timeout=(300, 1800), shrinktime="20s", env={"GODEBUG": "asynctimerchan=1"}),
     ],
 )
 
